@@ -120,7 +120,13 @@ def run(ctx):
     for i in range(ctx.n(9000, 200000)):
         if ctx.expired():
             break
-        check_case(ctx, gen_case(ctx.rnd, maxn), max_runs)
+        c = gen_case(ctx.rnd, maxn)
+        check_case(ctx, c, max_runs)
+        if i % 4 == 0:
+            sib = cases.sibling_weights_permuted(ctx.rnd, c["profile"])
+            if sib is not None:
+                ctx.count("sibling_profiles")
+                check_case(ctx, {"cfg": c["cfg"], "profile": sib, "tag": "sibling"}, max_runs)
 
 
 def replay(ctx, case):
